@@ -167,7 +167,7 @@ def run(tier: str, seed: int, t0: float) -> int:
     stats.bounds["docs_noninclusive_marks"] = len(selm)
     jobs.append((bm, "G+T resolve[s1m]"))
     # ---- T random
-    for name in schemas.BUNDLED_PLUS + ["s1", "s3"]:
+    for name in schemas.BUNDLED_PLUS + ["s1", "s3", "at", "bm"]:
         sch2, js2, prs = universe.random_docs(name, 12 if not thorough else 120, rng)
         b2 = trace.Batch(js2)
         marks2 = []
